@@ -320,3 +320,31 @@ def run(ctx):
                     inner = peel(v[2][0], unwraps=False)
                     okret = isinstance(inner, tuple) and inner[0] == 'field' and not any(isinstance(x, tuple) and x[0] in ('modby', 'phi') for x in walk(inner))
     rep.check(r5, okret, 'proto::repl:dns-reply-unmodified', 'the datagram reply is exactly the value returned by DNSPacket::repl: %s' % okret)
+
+    # R6: the byte parsers of questions and records (both are used on the reply path: the answer is re-parsed)
+    r6 = rep.rule('C14-R6', 'question / record parsers: a name ends at (and only at) the zero byte - the state leaves Name only on path states with *byte == 0; type and class are the code tables applied to the accumulated 16-bit words, unmodified', floor=6)
+    for ty in ['rr::DNSRR', 'query::DNSQuery']:
+        f = F.fn('<%s%s as proto::dissector::MPacket>::parse' % (D, ty))
+        rep.saw(f)
+        sadt = F.adts.get('%s%sState' % (D, ty))
+        ns = [(b, t) for b, t in f.calls(r'PacketDissector::<T>::next_state$') if short(f.argv(b, 1)).endswith('State::Type{}')]
+        if len(ns) == 1:
+            okn, dn = value_required_at(f, [ns[0][0]], lambda k: peel(k) == ('entry', ('deref', ('param', 2))), {0})
+            # and the converse: from the byte == 0 edge inside the Name arm the state change is always reached
+            z = value_edges(f, lambda k: peel(k) == ('entry', ('deref', ('param', 2))), 0)
+            conv = bool(z) and all(not any(x in f.reachable(s_, removed_blocks=[ns[0][0]]) for x in f.return_blocks()) for (_, s_) in z if ns[0][0] in f.reachable(s_))
+            rep.check(r6, okn and conv, ty.split('::')[-1] + ':name-terminator', 'Name -> Type exactly on a zero byte: only then %s (%s), always then %s' % (okn, dn, conv), f.loc(ns[0][0]))
+        else:
+            rep.bad(r6, ty.split('::')[-1] + ':name-terminator', 'expected one next_state(Type) site, found %d' % len(ns), '%s:%d' % (f.file, f.line))
+        for fld, acc in [('type_', '_u_type'), ('class', '_u_class')]:
+            ws = [v for _, _, v in field_writes(f, fld)]
+            w0 = ws[0] if ws else None
+            while isinstance(w0, tuple) and w0[0] in ('ref', 'deref'):
+                w0 = w0[1]
+            ok = len(ws) == 1 and isinstance(w0, tuple) and w0[0] == 'call' and re.search(r'::from$|::into$', w0[1]) is not None and len(w0[2]) == 1
+            if ok:
+                a = w0[2][0]
+                al = palts(a, unwraps=False)
+                ok = bool(al) and all((isinstance(x, tuple) and x[0] == 'entry' and Fn.path_of(x[1])[-1:] == [('f', acc)]) or (is_call(x, r'PacketDissector::<T>::read_u16$') and acc in short(x)) for x in al)
+            rep.check(r6, ok, '%s:%s-conversion' % (ty.split('::')[-1], fld), '%s <- %s (required: the code table applied to %s as accumulated)' % (fld, [short(w)[:80] for w in ws], acc), '%s:%d' % (f.file, f.line))
+
